@@ -11,10 +11,11 @@ Record fixes := {
   fx_ancestors : bool;        (* F3: a role that is its own ancestor is refused *)
   fx_saturating : bool;       (* F4: original version + max_root_updates saturates *)
   fx_prev_root : bool;        (* F5: step 1.9 compares with the previously trusted root *)
-  fx_atomic_store : bool      (* F9: datastore files are replaced by rename *)
+  fx_atomic_store : bool;     (* F9: datastore files are replaced by rename *)
+  fx_reserved_names : bool    (* F17: a delegated role may not bear the name of a top-level role *)
 }.
-Definition fixed : fixes := Build_fixes true true true true true true.
-Definition original : fixes := Build_fixes false false false false false false.
+Definition fixed : fixes := Build_fixes true true true true true true true.
+Definition original : fixes := Build_fixes false false false false false false false.
 
 (* ---------------------------------------------------------------------------------------- *)
 (* documents *)
@@ -496,6 +497,15 @@ Section Delegations.
 End Delegations.
 
 Definition name_targets_role : bytes := [116;97;114;103;101;116;115].
+Definition name_root_role : bytes := [114;111;111;116].
+Definition name_snapshot_role : bytes := [115;110;97;112;115;104;111;116].
+Definition name_timestamp_role : bytes := [116;105;109;101;115;116;97;109;112].
+(* the names load_targets starts the ancestor list of load_delegations with: after the repair of F17
+   all top-level role names, so that no delegated role can bear one (its file would replace that
+   role's file in the datastore); before it only "targets" *)
+Definition top_ancestors (fx : fixes) : list bytes :=
+  if fx_reserved_names fx then [name_root_role; name_snapshot_role; name_targets_role; name_timestamp_role]
+  else [name_targets_role].
 
 Definition load_targets (fx : fixes) (cfg : config) (r : root) (sn : snapshot) (srv : server)
            (now : Z) (w : world) : res targets * world :=
@@ -529,7 +539,7 @@ Definition load_targets (fx : fixes) (cfg : config) (r : root) (sn : snapshot) (
                           let '(rt, w4) :=
                             if tg_has_deleg t then
                               match load_delegs fx cfg srv sn (r_cs r) limit (c_fuel cfg)
-                                                (tg_dkeys t) (tg_roles t) [name_targets_role] w3 with
+                                                (tg_dkeys t) (tg_roles t) (top_ancestors fx) w3 with
                               | (Ok rs, w') => (Ok (tg_set_roles t rs), w')
                               | (Err c a, w') => (Err c a, w')
                               end
